@@ -5,7 +5,9 @@ package main
 // by the witness model, and one solver query asks for the other side.
 
 import (
+	"encoding/binary"
 	"fmt"
+	"hash/fnv"
 	"math/big"
 	"os"
 	"sort"
@@ -20,6 +22,7 @@ type decision struct {
 	taken  bool
 	hasVal bool
 	val    uint64
+	cmp    int8 // value decisions not taken: -1 restricts to t <u val, +1 to t >u val (0: t != val)
 }
 
 type workItem struct {
@@ -79,6 +82,7 @@ type PathState struct {
 	events   []event
 	seq      int
 	newWork  []workItem
+	nPublished int
 	known    string // inside a known-finding class
 	asserts  int
 	notes    []string
@@ -168,7 +172,7 @@ func (ps *PathState) decide(c *Term, why string) bool {
 		np := make([]decision, len(ps.trace)+1)
 		copy(np, ps.trace)
 		np[len(ps.trace)] = decision{taken: !v}
-		ps.newWork = append(ps.newWork, workItem{prefix: np, witness: m})
+		ps.publish(workItem{prefix: np, witness: m})
 	} else if r == "unknown" {
 		ps.h.inconclusive("branch feasibility unknown at " + why)
 	}
@@ -206,11 +210,18 @@ func (ps *PathState) concretize(t *Term, why string) uint64 {
 				ps.solver.Assert(eq)
 				return v
 			}
-			ps.solver.Assert(mkNot(eq))
+			switch d.cmp {
+			case -1:
+				ps.solver.Assert(mkCmp(OpUlt, t, mkBV(t.w, v)))
+			case 1:
+				ps.solver.Assert(mkCmp(OpUlt, mkBV(t.w, v), t))
+			default:
+				ps.solver.Assert(mkNot(eq))
+			}
 			tried++
 			continue
 		}
-		if tried >= ps.h.cfg.MaxSplit {
+		if ps.h.splitOver(ps.trace, ps.h.cfg.MaxSplit) {
 			ps.h.abandoned(why)
 			panic(pathEnd{"case-split cap"})
 		}
@@ -218,24 +229,76 @@ func (ps *PathState) concretize(t *Term, why string) uint64 {
 		eq := mkEq(t, mkBV(t.w, v))
 		ps.h.countBranch()
 		ps.nDecide++
-		ps.solver.Push()
-		ps.solver.Assert(mkNot(eq))
-		r := ps.solver.Check()
-		ps.h.whyStat("split:"+why, r == "sat")
-		if r == "sat" {
-			m := ps.solver.GetModel(ps.vars)
-			np := make([]decision, len(ps.trace)+1)
-			copy(np, ps.trace)
-			np[len(ps.trace)] = decision{taken: false, hasVal: true, val: v}
-			ps.newWork = append(ps.newWork, workItem{prefix: np, witness: m})
-		} else if r == "unknown" {
-			ps.h.inconclusive("case split unknown at " + why)
+		// the other values are handed out as two independent halves (below / above v),
+		// so a wide split fans out over the workers instead of forming a chain
+		for _, side := range []int8{-1, 1} {
+			ps.solver.Push()
+			if side < 0 {
+				ps.solver.Assert(mkCmp(OpUlt, t, mkBV(t.w, v)))
+			} else {
+				ps.solver.Assert(mkCmp(OpUlt, mkBV(t.w, v), t))
+			}
+			r := ps.solver.Check()
+			ps.h.whyStat("split:"+why, r == "sat")
+			if r == "sat" {
+				m := ps.solver.GetModel(ps.vars)
+				np := make([]decision, len(ps.trace)+1)
+				copy(np, ps.trace)
+				np[len(ps.trace)] = decision{taken: false, hasVal: true, val: v, cmp: side}
+				ps.publish(workItem{prefix: np, witness: m})
+			} else if r == "unknown" {
+				ps.h.inconclusive("case split unknown at " + why)
+			}
+			ps.solver.Pop()
 		}
-		ps.solver.Pop()
 		ps.solver.Assert(eq)
 		ps.trace = append(ps.trace, decision{taken: true, hasVal: true, val: v})
 		return v
 	}
+}
+
+// splitOver counts the values taken at one case-split site (identified by the
+// decisions leading to it) across all paths and reports when the cap is exceeded.
+func (h *HarnessRun) splitOver(trace []decision, max int) bool {
+	n := len(trace)
+	for n > 0 && trace[n-1].hasVal && !trace[n-1].taken {
+		n--
+	}
+	hsh := fnv.New64a()
+	var b [10]byte
+	for _, d := range trace[:n] {
+		b[0] = 0
+		if d.taken {
+			b[0] |= 1
+		}
+		if d.hasVal {
+			b[0] |= 2
+		}
+		b[1] = byte(d.cmp)
+		binary.LittleEndian.PutUint64(b[2:], d.val)
+		hsh.Write(b[:])
+	}
+	key := hsh.Sum64() ^ uint64(n)<<48
+	h.mu.Lock()
+	defer h.mu.Unlock()
+	if h.splitCount == nil {
+		h.splitCount = map[uint64]int{}
+	}
+	h.splitCount[key]++
+	return h.splitCount[key] > max
+}
+
+// publish hands a sibling path to the shared queue at once (not at the end of the
+// current path), so wide case splits spread over the workers.
+func (ps *PathState) publish(it workItem) {
+	h := ps.h
+	h.mu.Lock()
+	if !h.truncated && !h.stoppedOnViolation {
+		h.queue = append(h.queue, it)
+	}
+	h.mu.Unlock()
+	h.cond.Broadcast()
+	ps.nPublished++
 }
 
 // assume restricts the path to c; ends it quietly if infeasible.
@@ -309,6 +372,7 @@ type HarnessRun struct {
 	stepsHit   int
 	truncated  bool
 	stoppedOnViolation bool
+	splitCount map[uint64]int
 	funcs      map[string]bool
 	endCounts  map[string]int
 	needsEngine bool
@@ -545,7 +609,7 @@ func (h *HarnessRun) runPath(solver *Solver, it workItem) (newWork []workItem) {
 		}
 	}
 	if h.cfg.Verbose {
-		fmt.Fprintf(os.Stderr, "[%s] path %d end=%s decisions=%d steps=%d new=%d\n", h.name, h.paths, end, ps.nDecide, x.steps, len(ps.newWork))
+		fmt.Fprintf(os.Stderr, "[%s] path %d end=%s decisions=%d steps=%d new=%d\n", h.name, h.paths, end, ps.nDecide, x.steps, ps.nPublished)
 	}
 	return ps.newWork
 }
